@@ -151,6 +151,9 @@ def falsify(res, rnd, n):
             bad('hatvee', 'hat(vee(X)) != X', {'w': list(w), 'V': list(V)}, None)
         # group structure of inverse and adjoint
         T1, _ = G.pose(rnd); Tb, _ = G.pose(rnd)
+        if rnd.random() < 0.25:        # translations whose components cancel, repeat or vanish (a signed sum, a product or a single component says nothing about |p|)
+            a_ = rnd.uniform(0.2, 3.0)
+            T1 = T1.copy(); T1[:3, 3] = rnd.choice([[a_, -a_, 0.0], [1.5 * a_, -0.25 * a_, -1.25 * a_], [a_, 0.0, -a_], [a_, a_, a_], [0.0, a_, 0.0], [a_, -2 * a_, a_]])
         s1 = max(1.0, float(np.max(np.abs(T1[:3, 3]))), float(np.max(np.abs(Tb[:3, 3]))))
         if not (np.max(np.abs(m.TransInv(T1) @ T1 - I4)) <= 1e-9 * s1):
             bad('transinv', 'inv(T)*T != I', {'T': T1.tolist()}, (m.TransInv(T1) @ T1).tolist())
